@@ -159,6 +159,12 @@ func (s *segmentMetadata) getIndex(vecIdx VectorIndex, txtIdx TextIndex, metaIdx
 		return nil, fmt.Errorf("index does not implement io.ReaderFrom")
 	}
 
+	// Read on to the end of the last component: gzip verifies a file's trailer only
+	// when the reader hits its end, so a file cut inside its trailer is rejected too
+	if _, err := io.Copy(io.Discard, combinedReader); err != nil {
+		return nil, fmt.Errorf("failed to verify segment: %w", err)
+	}
+
 	// Cache the loaded index
 	s.cachedIndex = idx
 
